@@ -275,6 +275,16 @@ theorem glomit_ok (p : Prims) {rec : Rec σ} {fuel} (hIH : IH rec fuel) (spec : 
           (fun s' hs' => by rw [List.eq_of_mem_replicate hs']; exact PA_self hno)
       · exact listLoop_ok (S (mode sc) _) s (PA_self hno) sc rfl items []
     · hauto
+  | inspect s bp pm =>
+    simp only [glomit, annotF, noRefF] at *
+    apply Hoare.bind (logOK_rel _) (callOpt_ok ..)
+    intro _
+    apply Hoare.bind (logOK_rel _) (Hoare.attempt (S (mode sc) _ s target sc (PA_self hno) rfl))
+    intro r
+    split
+    · hauto
+    · apply Hoare.bind (logOK_rel _) (callOpt_ok ..)
+      hauto
 
 /-- the four mode functions and the argument mode on a plain object: sub-specs are evaluated in
     the same scope, hence in the same mode -/
